@@ -178,7 +178,7 @@ Proof. exact (path_shape strop es ext outdir). Qed.
 Print Assumptions C11_path_shape.
 
 Theorem C11_ns_path_shape (strop : str -> str) (ext : str) (stem : str) (outdir : path) :
-  forall k, ~ In DOT stem -> ns_path strop ext stem outdir k = outdir ++ map strop k ++ [stem ++ ext].
+  forall k, stem_valid stem = true -> ~ In DOT stem -> ns_path strop ext stem outdir k = outdir ++ map strop k ++ [stem ++ ext].
 Proof. exact (ns_path_shape strop ext stem outdir). Qed.
 Print Assumptions C11_ns_path_shape.
 
@@ -234,7 +234,8 @@ Print Assumptions C11_include_path_eq_output_path.
 (* (12) the type file lies in the output folder of its namespace's Namespace object (Namespace.output_folder), i.e. next to
    the namespace file -- with stropping enabled both are outdir / strop(ns_1) / ... / strop(ns_n). *)
 Theorem C11_type_file_in_namespace_folder (strop : str -> str) (ext stem : str) (outdir : path) :
-  forall t, removelast (out_path strop true ext outdir t) = outdir ++ map strop (t_ns t) /\
+  forall t, stem_valid stem = true ->
+            removelast (out_path strop true ext outdir t) = outdir ++ map strop (t_ns t) /\
             removelast (ns_path strop ext stem outdir (t_ns t)) = outdir ++ map strop (t_ns t).
 Proof. exact (type_file_in_namespace_folder strop ext stem outdir). Qed.
 Print Assumptions C11_type_file_in_namespace_folder.
@@ -243,7 +244,7 @@ Print Assumptions C11_type_file_in_namespace_folder.
    _make_ns_list does not strop the type's directories: the type file lies in its namespace's folder IFF stropping leaves the
    namespace components unchanged; witness (ns.class.Q, class -> _class) where it does not. *)
 Theorem C11_type_file_folder_stropping_disabled (strop : str -> str) (ext stem : str) (outdir : path) :
-  forall t,
+  forall t, stem_valid stem = true ->
     removelast (out_path strop false ext outdir t) = outdir ++ t_ns t /\
     removelast (ns_path strop ext stem outdir (t_ns t)) = outdir ++ map strop (t_ns t) /\
     (removelast (out_path strop false ext outdir t) = removelast (ns_path strop ext stem outdir (t_ns t))
@@ -286,43 +287,88 @@ Proof. exact (targets_inside strop es ext stem outdir). Qed.
 Print Assumptions C11_written_paths_inside_outdir.
 
 (* (15) the written paths are pairwise distinct: distinct types get distinct files, distinct namespaces distinct namespace files,
-   and a type file is never a namespace file -- for every run of build_namespace_tree that does not raise.
-   pin_c11tree_stem_check is REGENERATED from /repo: true iff build_namespace_tree has the stem check of
-   design_notes/C11_stem_collide_fix.patch (second pinned shape).  With the check, stem_guard is `True`: NO precondition on the
-   namespace-file stem.  Without it (known finding F-NS-STEM-COLLIDE) stem_guard is the excluded trigger: the stem is dot-free and
-   is not the stropped Short_M_m of a type.  Remaining hypotheses: stropping injectivity (names; namespaces: ns_fold strop = false). *)
+   and a type file is never a namespace file -- for EVERY stem string, on every run of build_namespace_tree that does not raise.
+   REGENERATED facts: pin_c11tree_stem_check (build_namespace_tree has the collision check; true since 39680a3) and
+   pin_c11path_stem_validated (Namespace.__init__ validates the stem: design_notes/C11_stem_validate_fix.patch).  stem_guard is
+   `True /\ True` when both are true; while the validation is missing (known finding F-NS-STEM-PATH) its first half is the
+   excluded trigger: the stem is a plain file name (stem_valid).  Remaining hypotheses: stropping injectivity (names; namespaces). *)
 Theorem c11_targets_distinct (strop : str -> str) (es : bool) (ext stem : str) (outdir : path) :
   forall perm, (forall l, Permutation (perm l) l) ->
   forall (types : list ty) (r : str), NoDup types -> one_root r types -> types <> [] ->
-    build_checked pin_c11tree_stem_check strop same es ext stem outdir perm types <> None ->
+    build_checked pin_c11path_stem_validated pin_c11tree_stem_check strop same es ext stem outdir perm types <> None ->
     (forall x y, In x (names_of types) -> In y (names_of types) -> pstrop strop es x = pstrop strop es y -> x = y) ->
     (forall t, In t types -> ~ In DOT (pstrop strop es (base_name t))) ->
     ns_fold strop types = false ->
-    stem_guard strop es stem types pin_c11tree_stem_check ->
+    stem_guard strop es stem types pin_c11path_stem_validated pin_c11tree_stem_check ->
     forall g, NoDup (c11_targets strop es ext stem outdir g perm types).
 Proof.
-  intros perm P types r Hnd Hr Hne. exact (targets_distinct_no_raise strop es ext stem outdir perm P types r Hnd Hr Hne pin_c11tree_stem_check).
+  intros perm P types r Hnd Hr Hne.
+  exact (targets_distinct_no_raise strop es ext stem outdir perm P types r Hnd Hr Hne pin_c11path_stem_validated pin_c11tree_stem_check).
 Qed.
 Print Assumptions c11_targets_distinct.
 
-(* the same for either state of the code (what C12 can import without depending on the regenerated flag) *)
+(* the same for any state of the code (what C12 can import without depending on the regenerated flags) *)
 Theorem c11_targets_distinct_either (strop : str -> str) (es : bool) (ext stem : str) (outdir : path) :
   forall perm, (forall l, Permutation (perm l) l) ->
   forall (types : list ty) (r : str), NoDup types -> one_root r types -> types <> [] ->
-  forall chk, build_checked chk strop same es ext stem outdir perm types <> None ->
+  forall validate chk, build_checked validate chk strop same es ext stem outdir perm types <> None ->
     (forall x y, In x (names_of types) -> In y (names_of types) -> pstrop strop es x = pstrop strop es y -> x = y) ->
     (forall t, In t types -> ~ In DOT (pstrop strop es (base_name t))) ->
     ns_fold strop types = false ->
-    stem_guard strop es stem types chk ->
+    stem_guard strop es stem types validate chk ->
     forall g, NoDup (c11_targets strop es ext stem outdir g perm types).
 Proof. exact (targets_distinct_no_raise strop es ext stem outdir). Qed.
 Print Assumptions c11_targets_distinct_either.
 
-(* the checked code refuses the colliding configuration; the unchecked code goes on (and collides: refutation below) *)
+(* the code refuses a stem that is some type's file stem (collision check) *)
 Example C11_stem_collision_raises_when_checked :
-  build_checked true same same true w_ext w_stem w_out w_id [w_T] = None /\
-  build_checked false same same true w_ext w_stem w_out w_id [w_T] <> None.
+  build_checked true true same same true w_ext w_stem w_out w_id [w_T] = None /\
+  build_checked true false same same true w_ext w_stem w_out w_id [w_T] <> None.
 Proof. exact stem_collision_raises_when_checked. Qed.
+
+(* (14') EVERY stem string (separators, "..", absolute, empty included): on every run that does not raise, every written path is
+   outdir followed by safe components.  With the validation in the code (pin_c11path_stem_validated = true) there is NO premise
+   on the stem; while it is missing the premise is the excluded trigger stem_valid.  `valid_ext`: the extension is one pathlib
+   accepts (".x...", no separator). *)
+Theorem C11_written_paths_inside_outdir_every_stem (strop : str -> str) (es : bool) (ext stem : str) (outdir : path) :
+  forall perm, (forall l, Permutation (perm l) l) ->
+  forall (types : list ty) (r : str), NoDup types -> one_root r types -> types <> [] ->
+  forall g,
+    build_checked pin_c11path_stem_validated pin_c11tree_stem_check strop same es ext stem outdir perm types <> None ->
+    (if pin_c11path_stem_validated then True else stem_valid stem = true) ->
+    (forall x, In x (names_of types) -> ident_like (pstrop strop es x)) ->
+    (forall t x, In t types -> In x (t_ns t) -> ident_like (strop x)) ->
+    valid_ext ext ->
+    forall q, In q (c11_targets strop es ext stem outdir g perm types) ->
+      exists rel, q = outdir ++ rel /\ Forall safe_comp rel /\ forall st, resolve st rel = rev rel ++ st.
+Proof.
+  intros perm P types r Hnd Hr Hne g.
+  exact (targets_inside_guarded strop es ext stem outdir perm P types r Hnd Hr Hne pin_c11path_stem_validated pin_c11tree_stem_check g).
+Qed.
+Print Assumptions C11_written_paths_inside_outdir_every_stem.
+
+(* WITHOUT the validation (build_checked false _ = the state of /repo while pin_c11path_stem_validated = false) the full statement
+   of (14') and of (15) (every stem) is FALSE of the faithful model: known finding F-NS-STEM-PATH (audit G-C11-1).  Witness:
+   ns.T.1.0, ns.a.U.1.0; stem "/x": nothing raises, both namespace files are the ONE path /x.h which does not start with the output
+   directory; stem "../../../e": the namespace file of ns is out/ns/../../../e.h, which resolves ABOVE out.  The validating code
+   refuses both.  [Move to History/C11_history.v when the fix lands.] *)
+Theorem C11_written_paths_inside_outdir_refuted :
+  exists (types : list ty) (abs_stem up_stem : str) (q1 q2 : path),
+    NoDup types /\ one_root w_ns types /\ types <> [] /\
+    build_checked false true same same true w_ext abs_stem w_out w_id types <> None /\
+    build_checked true true same same true w_ext abs_stem w_out w_id types = None /\
+    build_checked true true same same true w_ext up_stem w_out w_id types = None /\
+    ns_path same w_ext abs_stem w_out [w_ns] = q1 /\ ns_path same w_ext abs_stem w_out [w_ns; [97]] = q1 /\
+    In q1 (c11_targets same true w_ext abs_stem w_out true w_id types) /\ (forall rel, q1 <> w_out ++ rel) /\
+    In (w_out ++ q2) (c11_targets same true w_ext up_stem w_out true w_id types) /\
+    resolve (rev w_out) q2 = [[101; 46; 104]].
+Proof.
+  exists [w_T; w_U], w_abs_stem, w_up_stem, [[47]; [120; 46; 104]], [w_ns; [46; 46]; [46; 46]; [46; 46]; [101; 46; 104]].
+  destruct stem_path_witness as (A & B & C & D & E & F & G & H).
+  split; [repeat constructor; cbn [In]; intuition discriminate|]. split; [intros t [<-|[<-|[]]]; eexists; reflexivity|].
+  split; [discriminate|]. repeat (split; [assumption|]). split; [intros rel X; discriminate X|]. split; assumption.
+Qed.
+Print Assumptions C11_written_paths_inside_outdir_refuted.
 
 (* without namespace files only stropping injectivity on the names is needed *)
 Theorem c11_targets_distinct_types_only (strop : str -> str) (es : bool) (ext stem : str) (outdir : path) :
@@ -334,21 +380,6 @@ Theorem c11_targets_distinct_types_only (strop : str -> str) (es : bool) (ext st
 Proof. exact (targets_distinct_types_only strop es ext stem outdir). Qed.
 Print Assumptions c11_targets_distinct_types_only.
 
-(* WITHOUT the stem check (build_checked false = build; the state of /repo while pin_c11tree_stem_check = false) the full statement
-   of (15) (every stem) is FALSE of the faithful model: known finding F-NS-STEM-COLLIDE.  [Move to History/C11_history.v when the
-   fix lands.]  Witness: ns.T.1.0
-   with namespace-file stem "T_1_0": namespace file and type file are one path, written twice. *)
-Theorem c11_targets_distinct_refuted :
-  exists (strop : str -> str) (stem : str) (types : list ty) (r : str) (k : key) (t : ty),
-    NoDup types /\ one_root r types /\ types <> [] /\ In t types /\
-    In k (keys (fst (build strop same true w_ext w_out w_id types))) /\
-    ns_path strop w_ext stem w_out k = out_path strop true w_ext w_out t /\
-    c11_targets strop true w_ext stem w_out true w_id types = [ns_path strop w_ext stem w_out k; out_path strop true w_ext w_out t].
-Proof.
-  exists same, w_stem, [w_T], w_ns, [w_ns], w_T. destruct stem_collision_witness as (A & B & C & D).
-  split; [repeat constructor; intros []|]. split; [intros t [<-|[]]; eexists; reflexivity|]. split; [discriminate|]. auto.
-Qed.
-Print Assumptions c11_targets_distinct_refuted.
 
 (* ---- the REAL stroppers (C09: strop_lang l = TokenEncoder.strop with the regenerated configuration; identifier type "path") on
    DSDL names (valid_ident, what pydsdl admits): real_strop l x = Language.filter_id(x, "path") ------------------------------ *)
@@ -367,6 +398,16 @@ Theorem C11_real_written_paths_inside_outdir : forall (l : lang) (es : bool) (ex
     exists rel, q = outdir ++ rel /\ Forall safe_comp rel /\ forall st, resolve st rel = rev rel ++ st.
 Proof. exact real_targets_inside. Qed.
 Print Assumptions C11_real_written_paths_inside_outdir.
+
+(* (17') ... and for EVERY stem string on every run that does not raise, given the stem validation in the code *)
+Theorem C11_real_written_paths_inside_outdir_every_stem : forall (l : lang) (es : bool) (ext stem : str) (outdir : path) perm types r g chk,
+  (forall k, Permutation (perm k) k) -> NoDup types -> one_root r types -> types <> [] -> dsdl_names_ok types ->
+  valid_ext ext ->
+  build_checked true chk (real_strop l) same es ext stem outdir perm types <> None ->
+  forall q, In q (c11_targets (real_strop l) es ext stem outdir g perm types) ->
+    exists rel, q = outdir ++ rel /\ Forall safe_comp rel /\ forall st, resolve st rel = rev rel ++ st.
+Proof. exact real_targets_inside_no_raise. Qed.
+Print Assumptions C11_real_written_paths_inside_outdir_every_stem.
 
 (* (18) injectivity is FALSE for the real stroppers (C09 strop_injective_refuted); exactly: two type files coincide iff the
    namespace components and the file stems fold pairwise, fold l a b := real_strop l a = real_strop l b ... *)
